@@ -203,7 +203,7 @@ def spec_case(draw):
     names = draw(st.sampled_from([['A', 'B', 'C', 'D'], ['S', 'I', 'R', 'E'], ['Sus', 'Inf', 'Rec', 'Vac'],
                                    ['A', 'B', 'AB', 'BA'], ['I', 'S', 'SI', 'IS']]))[:ns]   # compound names spell other statuses
     directed = draw(st.booleans())
-    gc = draw(gen.graph_case(3, 5, labels=('int', 'perm', 'str', 'tuple'), directed=directed, weighted=True,
+    gc = draw(gen.graph_case(3, 5, labels=('int', 'perm', 'str', 'tuple'), directed=directed, weighted=True, selfloops=True,
                                  family=draw(st.sampled_from(['random', 'complete', 'cycle', 'star', 'tree', 'path']))))
     n = len(gc['nodes'])
     spont, induced = [], []
